@@ -23,6 +23,11 @@ SNode, DN, Ty = tg.SNode, tg.DN, tg.Ty
 # schemas
 # ----------------------------------------------------------------------------------------------------------------
 
+def has_when_stmt(n):
+    """own when or a when inherited from uses / augment"""
+    return getattr(n, "when", None) or getattr(n, "when_inh", None)
+
+
 class XSchema(tg.Schema):
     """tg.Schema + `uniques` on list nodes: sn.uniques = [[leaf SNode, ...], ...]
     + the XPath-dependent statements (C02 `valx`): sn.musts = [expression text, ...] on any data node, sn.lref = path text on a leaf
@@ -44,16 +49,20 @@ class XSchema(tg.Schema):
             if getattr(n, "lref", None):
                 L.append("leafref %d %s" % (n.sid, tg.hx(n.lref.encode("utf-8"))))
         if self.xp:
+            N = len(self.nodes)
             for n in self.nodes:
                 if getattr(n, "when", None):
                     L.append("when %d %s" % (n.sid, tg.hx(n.when.encode("utf-8"))))
+                # a when inherited from `uses` / `augment` (context node: the data parent): same line, key shifted by the table size
+                if getattr(n, "when_inh", None):
+                    L.append("when %d %s" % (n.sid + N, tg.hx(n.when_inh.encode("utf-8"))))
             if self.xpmask is not None:
                 # the deviations of libyang's XPath engine the model has to mirror (XPath.Quirks mask, c08.live_mask); absent = all on
                 L.append("xpmask %d" % self.xpmask)
         return "\n".join(L).encode()
 
     def has_xpath(self):
-        return any(getattr(n, "musts", None) or getattr(n, "lref", None) or (self.xp and getattr(n, "when", None)) for n in self.nodes)
+        return any(getattr(n, "musts", None) or getattr(n, "lref", None) or (self.xp and has_when_stmt(n)) for n in self.nodes)
 
     @staticmethod
     def rel_path(lst, leaf):
@@ -71,50 +80,63 @@ class XSchema(tg.Schema):
             s = bs.decode("utf-8")
             return '"' + s.replace("\\", "\\\\").replace('"', '\\"').replace("\n", "\\n").replace("\t", "\\t") + '"'
 
-        def emit(n, ind, pconfig):
+        cur, groupings = [out], []
+
+        def emit(n, ind, pconfig, raw=False):
             p = "  " * ind
+            if getattr(n, "when_inh", None) and not raw:
+                # the node (with its own when) inside a grouping, a `uses` with the inherited when at its place
+                saved, buf = cur[0], []
+                cur[0] = buf
+                emit(n, 2, pconfig, raw=True)
+                cur[0] = saved
+                groupings.append(["  grouping g%d {" % n.sid] + buf + ["  }"])
+                cur[0].append('%suses g%d { when "%s"; }' % (p, n.sid, n.when_inh))
+                return
             kw = {"leaflist": "leaf-list"}.get(n.kind, n.kind)
-            out.append("%s%s %s {" % (p, kw, n.name))
+            cur[0].append("%s%s %s {" % (p, kw, n.name))
             q2 = p + "  "
             if n.kind == "list" and n.keys:
-                out.append('%skey "%s";' % (q2, " ".join(n.keys)))
+                cur[0].append('%skey "%s";' % (q2, " ".join(n.keys)))
             if n.kind == "list":
                 for u in getattr(n, "uniques", []):
-                    out.append('%sunique "%s";' % (q2, " ".join(self.rel_path(n, l) for l in u)))
+                    cur[0].append('%sunique "%s";' % (q2, " ".join(self.rel_path(n, l) for l in u)))
             if n.kind == "container" and n.presence:
-                out.append('%spresence "p";' % q2)
+                cur[0].append('%spresence "p";' % q2)
             if getattr(n, "when", None):
-                out.append('%swhen "%s";' % (q2, n.when))      # law-only schemas (the model has no XPath)
+                cur[0].append('%swhen "%s";' % (q2, n.when))      # law-only schemas (the model has no XPath)
             if n.kind in ("leaf", "leaflist"):
                 if getattr(n, "lref", None):
-                    out.append('%stype leafref { path "%s"; }' % (q2, n.lref))
+                    cur[0].append('%stype leafref { path "%s"; }' % (q2, n.lref))
                 else:
-                    out.append(q2 + n.ty.yang())
+                    cur[0].append(q2 + n.ty.yang())
             for m in getattr(n, "musts", []):
-                out.append('%smust "%s";' % (q2, m))
+                cur[0].append('%smust "%s";' % (q2, m))
             if n.kind not in ("case",) and n.config != pconfig:
-                out.append("%sconfig %s;" % (q2, "true" if n.config else "false"))
+                cur[0].append("%sconfig %s;" % (q2, "true" if n.config else "false"))
             if n.kind in ("list", "leaflist"):
                 if n.userord and n.config:
-                    out.append(q2 + "ordered-by user;")
+                    cur[0].append(q2 + "ordered-by user;")
                 if n.min:
-                    out.append("%smin-elements %d;" % (q2, n.min))
+                    cur[0].append("%smin-elements %d;" % (q2, n.min))
                 if n.max:
-                    out.append("%smax-elements %d;" % (q2, n.max))
+                    cur[0].append("%smax-elements %d;" % (q2, n.max))
             if n.kind == "leaflist":
                 for d in n.dflts:
-                    out.append("%sdefault %s;" % (q2, q(d)))
+                    cur[0].append("%sdefault %s;" % (q2, q(d)))
             if n.kind == "leaf" and n.dflt is not None:
-                out.append("%sdefault %s;" % (q2, q(n.dflt)))
+                cur[0].append("%sdefault %s;" % (q2, q(n.dflt)))
             if n.kind == "choice" and n.dflt:
-                out.append("%sdefault %s;" % (q2, n.dflt))
+                cur[0].append("%sdefault %s;" % (q2, n.dflt))
             if n.kind in ("leaf", "choice") and n.mandatory:
-                out.append(q2 + "mandatory true;")
+                cur[0].append(q2 + "mandatory true;")
             for k in n.kids:
                 emit(k, ind + 1, n.config if n.kind != "case" else pconfig)
-            out.append(p + "}")
+            cur[0].append(p + "}")
         for t in self.top:
             emit(t, 1, True)
+        for g_ in groupings:
+            out.extend(g_)
         out.append("}")
         return "\n".join(out) + "\n"
 
@@ -959,7 +981,7 @@ class XpGen:
         for n in self.s.nodes:
             if n.is_data() and n.depth <= 2 and n is not ctx:
                 far.append(n)
-        ok = lambda n: (n.config or not ctx.config) and not getattr(n, "when", None)
+        ok = lambda n: (n.config or not ctx.config) and not has_when_stmt(n)
         near, far = [n for n in near if ok(n)], [n for n in far if ok(n)]
         return near, far
 
@@ -1139,7 +1161,16 @@ def descendants(n):
     return out
 
 
-def decorate_xpath(rng, s, nmust=2, nlref=1, nwhen=0):
+XP_WHEN_INH = True          # whens inherited from `uses` (context node: the data parent) next to / instead of the node's own when
+
+
+def xp_inh_counts(s):
+    """(nodes with a when inherited via uses / augment, nodes with own + inherited when)"""
+    return (sum(1 for n in s.nodes if getattr(n, "when_inh", None)),
+            sum(1 for n in s.nodes if getattr(n, "when_inh", None) and getattr(n, "when", None)))
+
+
+def decorate_xpath(rng, s, nmust=2, nlref=1, nwhen=0, force_inh=False):
     """put `nlref` leafrefs, `nmust` must statements (and `nwhen` when statements) on nodes of the finished schema `s`.
     Leafrefs: an existing plain leaf (no key, no default, no unique target) becomes a leafref to a configuration-compatible leaf or key
     outside its own subtree; sometimes a second leaf next to it becomes the key reference of a predicate."""
@@ -1148,9 +1179,9 @@ def decorate_xpath(rng, s, nmust=2, nlref=1, nwhen=0):
     used = set()          # targets and key references: they stay what they are
     # (not a mandatory leaf: without any target instance the repair step of the instance generator could only leave it dangling)
     plain = lambda n: (n.kind == "leaf" and not n.iskey and not n.mandatory and id(n) not in uniq and id(n) not in used
-                       and not getattr(n, "lref", None) and not getattr(n, "when", None))
+                       and not getattr(n, "lref", None) and not has_when_stmt(n))
     plain_ll = lambda n: (XP_LEAFLIST_LREF and n.kind == "leaflist" and not n.dflts and not n.min and id(n) not in used
-                          and not getattr(n, "lref", None) and not getattr(n, "when", None))
+                          and not getattr(n, "lref", None) and not has_when_stmt(n))
     for _ in range(nlref):
         srcs = [n for n in s.nodes if plain(n)]
         rng.shuffle(srcs)
@@ -1161,8 +1192,8 @@ def decorate_xpath(rng, s, nmust=2, nlref=1, nwhen=0):
         for src in srcs:
             tgts = [n for n in s.nodes if n.kind == "leaf" and n is not src and n.ty.name != "empty"
                     and (not getattr(n, "lref", None) or (chain and n.lref_route[2] is None))
-                    and (n.config or not src.config) and not getattr(n, "when", None) and rel_route(src, n)[0] >= 1
-                    and not any(getattr(a, "when", None) for a in data_chain(n))]
+                    and (n.config or not src.config) and not has_when_stmt(n) and rel_route(src, n)[0] >= 1
+                    and not any(has_when_stmt(a) for a in data_chain(n))]
             # prefer keys and leaves of lists (the classic use), then any leaf
             pref = [n for n in tgts if n.iskey or (n.data_parent() is not None and n.data_parent().kind == "list")]
             if not tgts:
@@ -1186,7 +1217,7 @@ def decorate_xpath(rng, s, nmust=2, nlref=1, nwhen=0):
             make_leafref(src, tgt, *leafref_route(rng, src, tgt, kref))
             break
     g = XpGen(rng, s)
-    ctxs = [n for n in s.nodes if n.is_data() and not getattr(n, "when", None)]
+    ctxs = [n for n in s.nodes if n.is_data() and not has_when_stmt(n)]
     for _ in range(nmust):
         ctx = rng.choice(ctxs)
         text, deps = g.gen(ctx, depth=rng.choice([0, 1, 1, 2]))
@@ -1197,7 +1228,7 @@ def decorate_xpath(rng, s, nmust=2, nlref=1, nwhen=0):
     # "a later must fails while the first holds" is frequent
     def controlled(n):
         return [k for k in s.data_kids(n.data_parent()) if k is not n and k.kind == "leaf" and not k.iskey and k.ty.name != "empty"
-                and safe_literals(k) and (k.config or not n.config) and not getattr(k, "when", None) and not getattr(k, "lref", None)]
+                and safe_literals(k) and (k.config or not n.config) and not has_when_stmt(k) and not getattr(k, "lref", None)]
     multi = [n for n in ctxs if controlled(n)]
     if multi and nmust:
         have = [n for n in multi if getattr(n, "musts", None)]
@@ -1215,26 +1246,26 @@ def decorate_xpath(rng, s, nmust=2, nlref=1, nwhen=0):
         ctx.must_deps = [[]] + [d for _, d in mid] + [[(k, v)]]
         ctx.must_last = (k, v)
     for _ in range(nwhen):
-        cand = [n for n in s.nodes if n.is_data() and not n.iskey and not getattr(n, "when", None) and not getattr(n, "mandatory", False)
+        cand = [n for n in s.nodes if n.is_data() and not n.iskey and not has_when_stmt(n) and not getattr(n, "mandatory", False)
                 and not (n.kind in ("list", "leaflist") and n.min) and id(n) not in uniq and not getattr(n, "lref", None)
                 and id(n) not in used]
         # carriers that validation creates by itself: leaf with a default, leaf-list with defaults, non-presence container with default
         # descendants -> created with LYD_WHEN_TRUE while the condition holds, created and auto-deleted while it does not
-        under_when = lambda n: any(getattr(a, "when", None) for a in ancestors(n))
+        under_when = lambda n: any(has_when_stmt(a) for a in ancestors(n))
         cand = [n for n in cand if not under_when(n)]
         dfl = [n for n in cand if has_implicit(n)]
         if dfl and rng.random() < 0.6:
             cand = dfl
         # on a choice / a case: the condition is inherited by the data nodes of the case(s), context node = the data parent
-        cc = [n for n in s.nodes if n.kind in ("choice", "case") and not getattr(n, "when", None) and not under_when(n)
+        cc = [n for n in s.nodes if n.kind in ("choice", "case") and not has_when_stmt(n) and not under_when(n)
               and not (n.kind == "choice" and n.mandatory)
-              and not any(getattr(d, "when", None) or getattr(d, "lref", None) or id(d) in used or id(d) in uniq or d.iskey
+              and not any(has_when_stmt(d) or getattr(d, "lref", None) or id(d) in used or id(d) in uniq or d.iskey
                           for d in descendants(n))]
         if XP_WHEN_CHOICE and cc and rng.random() < 0.4:
             ctx = rng.choice(cc)
             sib = [k for k in s.data_kids(ctx.data_parent()) if not tg.TreeGen.under(k, ctx if ctx.kind == "choice" else ctx.parent)
                    and k.kind == "leaf" and k.ty.name != "empty" and safe_literals(k) and (k.config or not ctx.config)
-                   and not getattr(k, "when", None)]
+                   and not has_when_stmt(k)]
             if sib:
                 k = rng.choice(sib)
                 v = rng.choice(safe_literals(k))
@@ -1245,16 +1276,65 @@ def decorate_xpath(rng, s, nmust=2, nlref=1, nwhen=0):
             ctx = rng.choice(cand)
             # the context node of a when is the node itself (may not exist): look at siblings / ancestors only
             sib = [k for k in s.data_kids(ctx.data_parent()) if k is not ctx and k.kind == "leaf" and k.ty.name != "empty"
-                   and safe_literals(k) and (k.config or not ctx.config) and not getattr(k, "when", None)]
+                   and safe_literals(k) and (k.config or not ctx.config) and not has_when_stmt(k)]
             if sib:
                 k = rng.choice(sib)
                 v = rng.choice(safe_literals(k))
-                ctx.when = "../%s %s '%s'" % (k.name, rng.choice(["=", "!="]), v)
+                ctx.when_op = rng.choice(["=", "!="])
+                ctx.when = "../%s %s '%s'" % (k.name, ctx.when_op, v)
                 ctx.when_deps = [(k, v)]
+    if XP_WHEN_INH and nwhen:
+        def inh(n):
+            """an inherited when on n over a plain sibling leaf L, written from the data parent's point of view"""
+            own = [d[0] for d in getattr(n, "when_deps", [])]
+            Ls = [k for k in s.data_kids(n.data_parent()) if k is not n and k not in own and k.kind == "leaf" and not k.iskey
+                  and k.ty.name != "empty" and safe_literals(k) and (k.config or not n.config) and not getattr(k, "lref", None)
+                  and not has_when_stmt(k) and not any(has_when_stmt(a) for a in ancestors(k)) and id(k) not in used
+                  and (k.parent is n.parent or k.parent is None or k.parent.kind != "case")]      # (creating L must not select a second case)
+            if not Ls:
+                return False
+            L = rng.choice(Ls)
+            v = rng.choice(safe_literals(L))
+            form = rng.choice(["eq", "ne", "noteq", "noteq", "cur", "dot", "count"])
+            n.when_inh = {"eq": "%s = '%s'", "ne": "%s != '%s'", "noteq": "not(%s = '%s')", "cur": "current()/%s = '%s'",
+                          "dot": "./%s = '%s'", "count": "count(%s) = 1"}[form] % ((L.name, v) if form != "count" else (L.name,))
+            n.when_inh_via, n.when_inh_form, n.when_inh_deps = "uses", form, [(L, v)]
+            return True
+        okc = lambda n: n.kind in ("leaf", "leaflist", "container") and n.is_data() and not n.iskey
+        both = 0
+        for n in s.nodes:
+            if okc(n) and getattr(n, "when", None) and getattr(n, "when_op", None) and (rng.random() < 0.5 or (force_inh and not both)):
+                both += inh(n)
+        if force_inh and not both:
+            # no data-node carrier with an own when so far: make one
+            cand = [n for n in s.nodes if okc(n) and not has_when_stmt(n) and not n.mandatory and not (n.kind == "leaflist" and n.min)
+                    and id(n) not in uniq and id(n) not in used and not getattr(n, "lref", None)
+                    and not any(has_when_stmt(a) for a in ancestors(n)) and not any(has_when_stmt(d) for d in descendants(n))]
+            rng.shuffle(cand)
+            for n in cand:
+                sib = [k for k in s.data_kids(n.data_parent()) if k is not n and k.kind == "leaf" and not k.iskey and k.ty.name != "empty"
+                       and safe_literals(k) and (k.config or not n.config) and not has_when_stmt(k) and not getattr(k, "lref", None)]
+                if len(sib) >= 2:
+                    k = rng.choice(sib)
+                    v = rng.choice(safe_literals(k))
+                    n.when_op = rng.choice(["=", "!="])
+                    n.when = "../%s %s '%s'" % (k.name, n.when_op, v)
+                    n.when_deps = [(k, v)]
+                    if inh(n):
+                        break
+                    n.when = None
+                    n.when_deps = []
+        elif rng.random() < 0.2:
+            # an inherited when alone
+            cand = [n for n in s.nodes if okc(n) and not has_when_stmt(n) and not n.mandatory and not (n.kind == "leaflist" and n.min)
+                    and id(n) not in uniq and id(n) not in used and not getattr(n, "lref", None)
+                    and not any(has_when_stmt(a) for a in ancestors(n)) and not any(has_when_stmt(d) for d in descendants(n))]
+            if cand:
+                inh(rng.choice(cand))
     return s
 
 
-def fam_xpath(rng, idx, nwhen=0):
+def fam_xpath(rng, idx, nwhen=0, force_inh=False):
     """small schemas for the XPath-dependent constraints: a container with typed leaves, a leaf-list and a keyed list, an inner
     container, and a top-level list; 1-3 musts, 1-2 leafrefs (relative to a sibling list's key, absolute into the container's list,
     with a key predicate through a second leafref), `nwhen` whens"""
@@ -1270,20 +1350,20 @@ def fam_xpath(rng, idx, nwhen=0):
     c = (b.pc if rng.random() < 0.6 else b.np)(b.mixed(ckids))
     top = [c, b.lst(b.mixed([sl(), sl(), sl()])), sl()]
     s = b.finish("xpath", idx, b.mixed(top))
-    return decorate_xpath(rng, s, nmust=rng.randrange(1, 4), nlref=rng.randrange(1, 3), nwhen=nwhen)
+    return decorate_xpath(rng, s, nmust=rng.randrange(1, 4), nlref=rng.randrange(1, 3), nwhen=nwhen, force_inh=force_inh)
 
 
 FAMILY_PREFIX["xpath"] = "xq"
 # the last two are directed instances rather than mutations: the sibling leaf the last must of the multi-must node compares is set to
 # the literal (the first must holds, the last fails); the explicit instances of a when-carrier with defaults are removed (validation creates
 # the carrier itself: with LYD_WHEN_TRUE, or creates and auto-deletes it)
-XP_MUTATIONS = ["break-must", "break-leafref", "flip-when", "last-must-false", "when-implicit"]
+XP_MUTATIONS = ["break-must", "break-leafref", "flip-when", "last-must-false", "when-implicit", "when-both-true", "when-inh-false"]
 
 
 def xp_counts(s):
     """(musts, leafrefs, leafrefs with a key predicate, whens) of a schema"""
     return (sum(len(getattr(n, "musts", [])) for n in s.nodes), sum(1 for n in s.nodes if getattr(n, "lref", None)),
-            sum(1 for n in s.nodes if getattr(n, "lref", None) and n.lref_route[2]), sum(1 for n in s.nodes if s.xp and getattr(n, "when", None)))
+            sum(1 for n in s.nodes if getattr(n, "lref", None) and n.lref_route[2]), sum(1 for n in s.nodes if s.xp and has_when_stmt(n)))
 
 
 # ----------------------------------------------------------------------------------------------------------------
@@ -1882,7 +1962,7 @@ class Mutator:
 
     def m_when_implicit(self, f):
         """remove every explicit instance of a when-carrier that validation creates by itself"""
-        car = [n for n in self.s.nodes if getattr(n, "when", None) and has_implicit(n)]
+        car = [n for n in self.s.nodes if has_when_stmt(n) and has_implicit(n)]
         done = []
         for n in car:
             if n.kind in ("choice", "case"):
@@ -1897,9 +1977,60 @@ class Mutator:
                     done.append(n.sid)
         return {"sids": sorted(set(done)), "how": "carrier-removed"} if done else None
 
+    def _set_whens(self, f, inh_true):
+        """where a node with own + inherited when exists: the own when made true, the inherited one true / false, by setting the two
+        compared sibling leaves (created if absent)"""
+        nodes = [n for n in self.s.nodes if getattr(n, "when_inh", None) and getattr(n, "when", None) and getattr(n, "when_op", None)]
+        self.rng.shuffle(nodes)
+        for n in nodes:
+            places = [(p, sibs) for p, sk, sibs in levels(self.s, f) if any(x.sn is n for x in sibs)]
+            if not places:
+                continue
+            p, sibs = self.rng.choice(places)
+
+            def put(leaf, want_equal, v, must_exist=True):
+                have = [x for x in sibs if x.sn is leaf]
+                if want_equal:
+                    val = v.encode()
+                else:
+                    other = [w for w in leaf.ty.pool() if w != v.encode()]
+                    if not other:
+                        return False
+                    val = have[0].val if have and have[0].val != v.encode() else self.rng.choice(other)
+                if have:
+                    have[0].val = val
+                else:
+                    sibs.append(DN(leaf, val))
+                return True
+            (k, kv), (L, lv) = n.when_deps[0], n.when_inh_deps[0]
+            if not put(k, n.when_op == "=", kv):
+                continue
+            form = n.when_inh_form
+            if form == "count":
+                have = [x for x in sibs if x.sn is L]
+                if inh_true and not have:
+                    sibs.append(DN(L, lv.encode()))
+                if not inh_true:
+                    for x in have:
+                        sibs.remove(x)
+            else:
+                # eq / cur / dot: true iff L = lit; ne: true iff L exists and differs; noteq: true iff not (L = lit)
+                want_equal = inh_true if form in ("eq", "cur", "dot") else not inh_true
+                if not put(L, want_equal, lv):
+                    continue
+            self._recanon(p, sibs)
+            return {"sid": n.sid, "form": form, "inherited": "true" if inh_true else "false"}
+        return None
+
+    def m_when_both_true(self, f):
+        return self._set_whens(f, True)
+
+    def m_when_inh_false(self, f):
+        return self._set_whens(f, False)
+
     def m_flip_when(self, f):
         """the leaf a when condition compares: set to the literal of the comparison, to another value, or removed"""
-        deps = [(n, d) for n in self.s.nodes for d in getattr(n, "when_deps", [])]
+        deps = [(n, d) for n in self.s.nodes for d in list(getattr(n, "when_deps", None) or []) + list(getattr(n, "when_inh_deps", None) or [])]
         self.rng.shuffle(deps)
         for ctx, (tgt, lit) in deps:
             inst = self._instances(f, tgt)
